@@ -36,7 +36,7 @@ fn sym_case() -> (bool, &'static [u8; 7], bool, &'static [u8; 2], ohkami::Reques
     (ct_present, ct, body_present, body, req)
 }
 
-// @verif prop=C07 tier=quick mem=20 replay=none bounds="FromBody gate: Content-Type = 7 symbolic printable bytes or absent; payload = 2 symbolic bytes or absent"
+// @verif prop=C07 tier=quick mem=12 replay=none bounds="FromBody gate: Content-Type = 7 symbolic printable bytes or absent; payload = 2 symbolic bytes or absent"
 #[kani::proof]
 #[kani::stub(ohkami::util::unix_timestamp, stubs::unix_timestamp_zero)]
 #[kani::stub(core::str::from_utf8, stubs::from_utf8_model)]
@@ -56,7 +56,7 @@ fn c07_body_gate() {
     std::mem::forget(r); std::mem::forget(req);
 }
 
-// @verif prop=C07 tier=quick mem=20 replay=none bounds="Option<FromBody> gate: same request space"
+// @verif prop=C07 tier=quick mem=12 replay=none bounds="Option<FromBody> gate: same request space"
 #[kani::proof]
 #[kani::stub(ohkami::util::unix_timestamp, stubs::unix_timestamp_zero)]
 #[kani::stub(core::str::from_utf8, stubs::from_utf8_model)]
